@@ -840,6 +840,9 @@ func runC18(r *Run) {
 	}
 	r.R.Check(cycle == "", P+".norec", "call-graph SCCs: no recursion among the subject functions reachable from ApplyPatches / ValidateDelta", "reachable set", "-",
 		"recursion on attacker-controlled nesting can overflow the stack", fmt.Sprintf("%d functions, acyclic", len(fns)), "recursive edge "+cycle)
+	if r.Universal {
+		r.universalE6(P)
+	}
 	r.checkNoPanic(P, entries, 40)
 }
 
